@@ -870,29 +870,52 @@ mod os {
                 posix::chdir(cwd)?;
             }
 
-            // Make `file` the standard stream `fd` of the child.
-            fn install(file: &File, fd: i32) -> io::Result<()> {
-                if file.as_raw_fd() != fd {
-                    // the new descriptor is not close-on-exec
-                    posix::dup2(file.as_raw_fd(), fd)?;
-                } else {
-                    // already in place, make sure it survives exec
-                    let old = posix::fcntl(fd, posix::F_GETFD, None)?;
-                    posix::fcntl(fd, posix::F_SETFD, Some(old & !posix::FD_CLOEXEC))?;
-                }
-                Ok(())
-            }
-
             let (stdin, stdout, stderr) = child_ends;
-            if let Some(stdin) = stdin {
-                install(&stdin, 0)?;
+            // descriptor to become standard stream 0, 1 and 2 of the child
+            let mut src = [
+                stdin.as_ref().map(|f| f.as_raw_fd()),
+                stdout.as_ref().map(|f| f.as_raw_fd()),
+                stderr.as_ref().map(|f| f.as_raw_fd()),
+            ];
+            // When the parent runs with standard descriptors closed, a file
+            // it opened may sit at 0, 1 or 2.  Unless that is where it is to
+            // go, the dup2() for that number would replace it before it is
+            // used: move it out of the way first.
+            for i in 0..3 {
+                if let Some(fd) = src[i] {
+                    if fd <= 2 && fd != i as i32 {
+                        let moved = posix::fcntl(fd, posix::F_DUPFD_CLOEXEC, Some(3))?;
+                        for s in src.iter_mut() {
+                            if *s == Some(fd) {
+                                *s = Some(moved);
+                            }
+                        }
+                    }
+                }
             }
-            if let Some(stdout) = stdout {
-                install(&stdout, 1)?;
+            for i in 0..3 {
+                if let Some(fd) = src[i] {
+                    if fd != i as i32 {
+                        // the new descriptor is not close-on-exec
+                        posix::dup2(fd, i as i32)?;
+                    } else {
+                        // already in place, make sure it survives exec
+                        let old = posix::fcntl(fd, posix::F_GETFD, None)?;
+                        posix::fcntl(fd, posix::F_SETFD, Some(old & !posix::FD_CLOEXEC))?;
+                    }
+                }
             }
-            if let Some(stderr) = stderr {
-                install(&stderr, 2)?;
-            }
+            // Dropping a child end closes it.  That must not happen to one
+            // whose number by now is a standard stream set up above.
+            let release = |end: Option<Rc<File>>| match end {
+                Some(f) if f.as_raw_fd() <= 2 && src[f.as_raw_fd() as usize].is_some() => {
+                    std::mem::forget(f)
+                }
+                _ => (),
+            };
+            release(stdin);
+            release(stdout);
+            release(stderr);
             posix::reset_sigpipe()?;
 
             // The group must be changed first: after setuid() to an
